@@ -50,7 +50,19 @@ FIELDS = ['local_path', 'abort_reason', 'fail_reason', 'start_time', 'complete_t
 
 def cases(tier: str, seed: int) -> list[dict]:
     n = 1500 if tier == 'quick' else 100000
-    return [{'seed': seed, 'n': i} for i in range(n)]
+    out = [{'seed': seed, 'n': i} for i in range(n)]
+    # directed: an upload whose downloader vanishes in mid-transfer after dropping its peer connection; the client
+    # wants to tell the peer (PeerUploadFailed) and has to reach it first; the call lands during that attempt
+    k = 0
+    for op_ in ('remove', 'abort', 'pause'):
+        for direct_ in ('slow', 'hang', 'refused'):
+            for t_ in (2.5, 4.0, 6.0, 11.0):
+                out.append({'seed': seed, 'n': n + k, 'force': {
+                    'direction': 'upload', 'op': op_, 'direct': direct_, 'indirect': 'late', 'n_transfers': 1, 't_op': t_,
+                    'op_sync': 'instant', 'read': 'vanish', 'drops_link': False, 'hold': 0.0,
+                    'degrade_after_start': True}})
+                k += 1
+    return out
 
 
 def run_case(params: dict) -> dict:
@@ -94,6 +106,16 @@ def run_case(params: dict) -> dict:
     qf_at = xrng.choice([None, None, None, 0.05, 0.5, 2.0, 5.5]) if direction == 'download' and offer_at is None else None
     if qf_at is not None:
         t_op, op_sync, early_arm = max(t_op, qf_at + xrng.choice([0.05, 0.3, 3.0])), 'instant', False
+    force = params.get('force') or {}
+    direction = force.get('direction', direction)
+    op = force.get('op', op)
+    direct = force.get('direct', direct)
+    indirect = force.get('indirect', indirect)
+    n_transfers = force.get('n_transfers', n_transfers)
+    t_op = force.get('t_op', t_op)
+    if 'op_sync' in force:
+        op_sync, early_arm, offer_at, qf_at = force['op_sync'], False, None, None
+        victim_idx = 0
     tm = TransferMonitor()
     viol: list = []
     obs = {'ops_judged': 0, 'frames_decoded': 0, 'orphan_scans': 0, 'field_freeze_checks': 0, 'ops_refused': 0,
@@ -122,6 +144,14 @@ def run_case(params: dict) -> dict:
         other_upl = Uploader(w, other, 'me', me.port, rng, {'@@carol\\x.mp3': bytes(30000)})
         dl = Downloader(w, peer, 'me', me.port, rng)
         dl.default.update(hold=rng.choice([0.0, 2.0]), reply_lat=rng.choice([0.0, 0.5]))
+        # uploads: the downloader may vanish in mid-transfer (the upload fails and the client wants to tell the peer) and
+        # may have dropped its peer connection after queueing (the client has to reach it first: slow / hanging / refused)
+        dl.default['read'] = erng.choice(['all', 'all', 'vanish'])
+        drops_link = direction == 'upload' and erng.random() < 0.5
+        if force:
+            dl.default['read'] = force.get('read', dl.default['read'])
+            drops_link = force.get('drops_link', drops_link)
+            dl.default['hold'] = force.get('hold', dl.default['hold'])
         if direction == 'download':
             peer.on_frame = upl._on_frame
             peer.on_link = None
@@ -133,7 +163,7 @@ def run_case(params: dict) -> dict:
             plan = ConnPlan(latency=rng.uniform(0.001, 0.03))
             if node == 'bob' and qf_state.get('dialing'):
                 return ConnPlan(latency=0.004, seg='whole', seg_lat=(0.006, 0.006))
-            if node == 'me' and port in bob_ports:
+            if node == 'me' and port in bob_ports and (not force.get('degrade_after_start') or qf_state.get('degraded')):
                 if direct == 'slow':
                     plan.latency = rng.uniform(4.0, 9.0)
                 elif direct == 'hang':
@@ -265,6 +295,14 @@ def run_case(params: dict) -> dict:
         # -- workload ---------------------------------------------------------------------------
         await settle(0.3)
         transfers = []
+        if force.get('degrade_after_start'):
+            def degrade(transfer, old, new):
+                # once the upload is under way the downloader drops its peer connection and becomes hard to reach
+                if new == 'UPLOADING' and not qf_state.get('degraded'):
+                    qf_state['degraded'] = True
+                    if dl.link is not None and not dl.link.closed:
+                        dl.link.close()
+            tm.edge_hooks.append(degrade)
 
         def bob_transfers():
             want_upload = direction == 'upload'
@@ -282,6 +320,11 @@ def run_case(params: dict) -> dict:
                 names = sorted(rp)
                 for k in range(n_transfers):
                     await dl.queue(rp[names[k]])
+                if drops_link:
+                    await asyncio.sleep(0.02)
+                    if dl.link is not None and not dl.link.closed:
+                        dl.link.close()
+                        obs['downloader_dropped_its_link'] = obs.get('downloader_dropped_its_link', 0) + 1
                 for _ in range(40):
                     await asyncio.sleep(0.01)
                     if len(bob_transfers()) >= n_transfers:
@@ -374,6 +417,15 @@ def run_case(params: dict) -> dict:
         t_call = w.loop.time()
         token = NODE.set('me')      # inline (no task of its own): the call starts in this very loop step
         try:
+            if erng.random() < 0.3 and len(transfers) >= 2:
+                # the same call on another transfer of the peer right before: its state change requests a management
+                # cycle that runs while the call on the victim is in progress
+                other_t = next(t_ for t_ in transfers if t_ is not victim)
+                try:
+                    await getattr(mgr, op)(other_t)
+                    obs['calls_with_the_same_call_on_a_sibling_right_before'] = obs.get('calls_with_the_same_call_on_a_sibling_right_before', 0) + 1
+                except Exception:  # noqa  (refused / not found: irrelevant here)
+                    pass
             await getattr(mgr, op)(victim)
         except InvalidStateTransition:
             refused = True
